@@ -369,8 +369,12 @@ func checkEnvelope(data []byte, expectedType msgType) ([]byte, error) {
 		return nil, fmt.Errorf("unknown envelope protocol: %v", data[4])
 	}
 
+	headerLen := int(data[5])
+	if headerLen < envelopeMinHeaderLen || headerLen > len(data) {
+		return nil, fmt.Errorf("invalid envelope header size: %d", headerLen)
+	}
+
 	var (
-		headerLen  = int(data[5])
 		flags      = data[6]
 		actualType = msgType(data[7])
 		payload    = data[headerLen:]
